@@ -498,6 +498,13 @@ def rule_c13_expected_greedy(prog: Program, col: Collector) -> None:
         src_ok = rv[0] == "comp" and len(rv[3]) == 1 and rv[3][0][1] == rem[0].recv and not rv[3][0][2]
         col.check(src_ok, ref.where(rebuild[-1].node), ref.short, "candidates = [sequence + [c] for c in <remaining candidates>]", construct="greedy-rebuild-src",
                   necessity="every remaining coalition must be considered, and only those")
+    loop_frames = [f for f in a.ctx if f[0] in ("while", "for")]
+    if loop_frames:
+        lu = loop_frames[0][1]
+        exits = [e for e in ft.events if e.kind in ("break", "return") and any(f[0] in ("while", "for") and f[1] == lu for f in e.ctx)]
+        col.check(not exits, ref.where(exits[0].node if exits else None), ref.short, "the search loop runs until the step limit (no early break / return)",
+                  construct="greedy-early-exit",
+                  necessity="rows of the curve that are never written keep their placeholder (-1): the curve is not non-increasing and lies below the exhaustive optimum")
     # chosen = candidates[best_index][-1]
     okc = chosen is not None and chosen[0] == "index" and chosen[2] == ("un", "-", ("const", 1)) and chosen[1][0] == "index"
     col.check(okc, ref.where(a.node), ref.short, "the coalition appended is the last element of the selected candidate sequence", construct="greedy-chosen",
